@@ -4,6 +4,7 @@ import (
 	"container/heap"
 	"fmt"
 	"os"
+	"runtime"
 	"sort"
 	"strings"
 	"sync"
@@ -80,6 +81,7 @@ type Kernel struct {
 	Violations []*Violation
 
 	stallIvls    []ivl
+	Strict       bool
 	Inspecting   atomic.Bool // set while the driver's inspector calls library accessors: no parks
 	spinReported bool
 	OnFatal      func(v *Violation) // called for spin: persists and exits
@@ -237,6 +239,14 @@ func (k *Kernel) Yield(class, ident string) {
 			k.OnFatal(v)
 		}
 	}
+	if park < 0 && k.Strict && strictClass(class) {
+		// strict scheduling: every seam hands control back to the driver, which releases
+		// one goroutine at a time in (time, site identity) order
+		ch := make(chan struct{})
+		k.After(0, "go:"+key, func() { close(ch) })
+		<-ch
+		return
+	}
 	if park < 0 {
 		return
 	}
@@ -254,6 +264,31 @@ func (k *Kernel) Yield(class, ident string) {
 		close(ch)
 	})
 	<-ch
+}
+
+// mapLoopFuncs: library functions that call out (callbacks, locks, sockets) from inside a
+// loop over a Go map.
+var mapLoopFuncs = []string{"allocation.(*Allocation).Close", "allocation.(*Manager).Close", "client.(*TransactionMap).CloseAndDeleteAll"}
+
+func underMapIteration() bool {
+	pcs := make([]uintptr, 48)
+	n := runtime.Callers(3, pcs)
+	frames := runtime.CallersFrames(pcs[:n])
+	for {
+		f, more := frames.Next()
+		for _, m := range mapLoopFuncs {
+			if strings.HasSuffix(f.Function, m) {
+				return true
+			}
+		}
+		if !more {
+			return false
+		}
+	}
+}
+
+func strictClass(class string) bool {
+	return class == "lock" || class == "rlock" || strings.HasPrefix(class, "cb:") || strings.HasPrefix(class, "sock:")
 }
 
 func yieldBucket(class string) string {
